@@ -262,3 +262,16 @@ package eval
 //@ func execLambdaOp
 //@   trusted
 //@   pure
+
+// Closure.Call: when the call is accepted (arity and options are fine) the body
+// runs exactly once and the frame's deferred callbacks run exactly once, after
+// the body, on every path; the body's exception wins over a deferred one.
+//@ func Closure.Call
+//@   props C21
+//@   nosafety
+//@   log effectOp.exec Frame.runDefers
+//@   invariant ncalls == 0
+//@   exit [ran-or-rejected] ncalls == 0 || ncalls == 2
+//@   exit [defers-run-once-after-body] ncalls == 2 ==> callis(0, "effectOp.exec") && callis(1, "Frame.runDefers")
+//@   exit [body-exception-wins] ncalls == 2 && !(callres(0) === nil) ==> result === callres(0)
+//@   exit [defer-exception-if-body-succeeded] ncalls == 2 && callres(0) === nil ==> result === callres(1)
